@@ -1507,10 +1507,50 @@ func withID(keys []string, vals []Arg, id int64) ([]string, []Arg) {
 	return k2, v2
 }
 
+// driverTmpl: prefix + comparisons with the driver's own named placeholders (":name"), the values
+// passed as sql.Named(...) in an order of their own. gorm writes no placeholder for them: they are
+// the arguments left over after the last '?', handed through to the driver under their names.
+func (g *gen) driverTmpl(sc scope, prefix string) *Tmpl {
+	t := &Tmpl{Driver: true, Carrier: "driver"}
+	pool := []string{"n1", "n2", "who", "lim"}
+	var b strings.Builder
+	b.WriteString(prefix)
+	used := map[string]bool{}
+	for i, n := 0, 2+g.pick("drivern", 3); i < n; i++ {
+		if i > 0 {
+			b.WriteString(g.oneOf("joiner", " AND ", " OR "))
+		}
+		name := pool[g.pick("name", len(pool))]
+		col, class := g.col(sc, "")
+		fmt.Fprintf(&b, "%s %s :%s", col, cmpOps[g.pick("op", len(cmpOps))], name)
+		t.Refs = append(t.Refs, name)
+		if !used[name] {
+			used[name] = true
+			v := g.scalar(class, 8)
+			if v.K == KGormValuer {
+				v.K = KStr // an expression cannot be a driver-level argument
+			}
+			t.Binds = append(t.Binds, Bind{Name: name, A: Arg{V: &v}})
+		}
+	}
+	sort.Slice(t.Binds, func(i, j int) bool { return t.Binds[i].Name < t.Binds[j].Name })
+	names := make([]string, len(t.Binds))
+	for i, bd := range t.Binds {
+		names[i] = bd.Name
+	}
+	t.ArgOrder = rapid.Permutation(names).Draw(g.t, "argorder") // not the order of appearance in the text
+	t.SQL = b.String()
+	return t
+}
+
 func (g *gen) raw() *Chain {
 	c := &Chain{Kind: "raw", Fin: "scan"}
 	table := g.oneOf("rawtable", "items", "items", "tags", "owners")
 	sc := scope{table: table}
+	if g.pct("drivernamed", 12) {
+		c.Raw = g.driverTmpl(sc, "SELECT * FROM "+table+" WHERE ")
+		return c
+	}
 	switch g.weighted("rawform", 50, 30, 20) {
 	case 0:
 		c.Raw = g.posTmpl(sc, 1+g.weighted("rawn", 40, 40, 20), "SELECT * FROM "+table+" WHERE ", true)
@@ -1532,6 +1572,11 @@ func (g *gen) raw() *Chain {
 
 func (g *gen) exec() *Chain {
 	c := &Chain{Kind: "exec"}
+	if g.pct("drivernamed", 12) {
+		table := g.oneOf("deltable", "tags", "owners")
+		c.Raw = g.driverTmpl(scope{table: table}, "DELETE FROM "+table+" WHERE ")
+		return c
+	}
 	switch g.weighted("execform", 30, 20, 20, 15, 15) {
 	case 0:
 		sc := scope{table: "items"}
